@@ -39,6 +39,17 @@ def gen(rng, tier):
                     case.pop(key, None)
             case["inf_high_cost"] = True
             yield case
+        elif k % 10 == 2:
+            # systematic: sequence-based, five or six positions, a customer that can be entered from the depot but has no arc back to it
+            # (and another one to return through): the "depot is absorbing" products must be there for that customer too
+            spec, info = VU.gen_planted(rng, ncust=2, extra_arc_p=0.6, wide=True)
+            a = spec["nodes"][1]["name"]
+            b = spec["nodes"][2]["name"]
+            spec["arcs"] = [x for x in spec["arcs"] if not (x[0] == a and x[1] == "D")]
+            for o_, d_ in (("D", a), (a, b), (b, "D")):
+                if not any(x[0] == o_ and x[1] == d_ for x in spec["arcs"]):
+                    spec["arcs"].append([o_, d_, "0", "1"])
+            yield dict(form="seq", spec=spec, strict=False, V=1, L=rng.choice([5, 6]), seed=rng.randrange(10 ** 6))
         elif k % 10 == 7:
             # systematic: a sequence-based object assembled through its own API with the depot node first, queried, and only then told
             # which node is the depot (set_depot on the node that already is first still installs the stay-at-depot move)
@@ -189,6 +200,37 @@ def run_case(case, drv):
                     res.fail("arc:zero-energy-vs-routes", f"x selecting {core.jsonable(sel)} has feasibility-QUBO value "
                                                           f"{fs(Fraction(int(vals[i0]), d))} but is {'a' if valid else 'not a'} valid set of depot routes")
                     break
+    if form == "seq" and n <= 13 and not res.failures and int(o.max_sequence_length) >= 3:
+        # ... and for sequence-based instances: exactly the indicator vectors of walk assignments (absorbing depot, arcs, every
+        # customer once), enumerated independently of the object's own constraint data
+        from .c07 import walks
+        g = VU.graph_of(o)
+        has = {(a[0], a[1]): a for a in g["arcs"]}
+        V_, L_ = int(o.max_vehicles), int(o.max_sequence_length)
+        var = [(int(v), int(p_), int(k2)) for (v, p_, k2) in o.var_mapping]
+        vidx = {u: i for i, u in enumerate(var)}
+        ws = walks(len(g["nodes"]), V_, L_, has)
+        if len(ws) <= 5000:
+            enc = set()
+            for w in ws:
+                x = [0] * n
+                ok_ = True
+                for v in range(V_):
+                    for p_ in range(L_):
+                        u = (v, p_, w[v][p_])
+                        if u in vidx:
+                            x[vidx[u]] = 1
+                        elif o.fixed_values.get(u) != 1.0:
+                            ok_ = False
+                if ok_:
+                    enc.add(tuple(x))
+            for i0 in range(len(B.X)):
+                x = tuple(int(t) for t in B.X[i0])
+                if bool(zero[i0]) != (x in enc):
+                    res.fail("seq:zero-energy-vs-walks", f"x={list(x)} (tuples {[var[k2] for k2 in range(n) if x[k2]]}) has feasibility-QUBO value "
+                                                         f"{fs(Fraction(int(vals[i0]), d))} but is {'a' if x in enc else 'not a'} walk assignment")
+                    break
+            res.features.append("zero-energy-vs-walks:checked")
     nf = int(B.feasible.sum())
     res.nontrivial = n >= 2 and nf >= 1 and nf < len(B.feasible)
     res.features += [f"n:{n}", f"feasible_set:{'empty' if nf == 0 else 'nonempty'}"]
